@@ -116,6 +116,10 @@ func init() {
 	I[rtPkg+"CancelCtxAt"] = func(ex *Exec, a []Value) Value {
 		return &IfaceV{V: &CtxV{Name: "ctx", Cancel: a[0].(*Term)}}
 	}
+	I[rtPkg+"DeadlineCtxAt"] = func(ex *Exec, a []Value) Value {
+		// cancelled from instant a[0] on; Deadline() reports (a[1], a[2])
+		return &IfaceV{V: &CtxV{Name: "ctx", Cancel: a[0].(*Term), Deadline: a[1].(*Term), HasDl: a[2].(*Term)}}
+	}
 	I[rtPkg+"CancelCtxEvent"] = func(ex *Exec, a []Value) Value {
 		// concurrent harnesses: a context that the environment may cancel at any moment (or never)
 		name := a[0].(string)
@@ -349,6 +353,18 @@ func init() {
 		now := intrinsics["time.Now"](ex, nil)
 		return ex.ts.IntBin("sub", ex.timeNanos(now), ex.timeNanos(a[0]))
 	}
+	I["time.Until"] = func(ex *Exec, a []Value) Value {
+		now := intrinsics["time.Now"](ex, nil)
+		return ex.ts.IntBin("sub", ex.timeNanos(a[0]), ex.timeNanos(now))
+	}
+	I["(time.Time).IsZero"] = func(ex *Exec, a []Value) Value {
+		return ex.ts.IntCmp("eq", ex.timeNanos(a[0]), ex.ts.IntS(SInt(64, true), 0))
+	}
+	I["(time.Time).Compare"] = func(ex *Exec, a []Value) Value {
+		x, y := ex.timeNanos(a[0]), ex.timeNanos(a[1])
+		i64 := SInt(64, true)
+		return ex.ts.Ite(ex.ts.IntCmp("lt", x, y), ex.ts.IntS(i64, -1), ex.ts.Ite(ex.ts.IntCmp("eq", x, y), ex.ts.IntS(i64, 0), ex.ts.IntS(i64, 1)))
+	}
 	I["time.NewTimer"] = func(ex *Exec, a []Value) Value { return ex.newTimer(a[0].(*Term), false) }
 	I["time.NewTicker"] = func(ex *Exec, a []Value) Value { return ex.newTimer(a[0].(*Term), true) }
 	I["(*time.Timer).Stop"] = func(ex *Exec, a []Value) Value { return ex.timerStop(a[0]) }
@@ -460,6 +476,8 @@ func init() {
 		}
 	}
 	registerSyncIntrinsics()
+	registerTypedAtomics()
+	registerSyncMap()
 }
 
 type classPred struct {
@@ -719,6 +737,12 @@ func (ex *Exec) ctxMethod(c *CtxV, name string, args []Value) Value {
 		}
 		return &ChanV{Nil: true}
 	case "Deadline":
+		for p := c; p != nil; p = p.Parent {
+			if p.Deadline != nil {
+				// a context without a deadline reports the zero time
+				return TupleV{ex.timeValue(ex.ts.Ite(p.HasDl, p.Deadline, ex.ts.IntS(SInt(64, true), 0))), p.HasDl}
+			}
+		}
 		return TupleV{ex.timeValue(ex.ts.IntS(SInt(64, true), 0)), ex.ts.Bool(false)}
 	}
 	panic(unsupported("context method " + name))
